@@ -110,3 +110,9 @@ Proof.
   - intros Hin. apply in_app_or in Hin. destruct Hin as [Hin|Hin]; [contradiction|]. eapply Hd; [left; reflexivity|exact Hin].
   - apply IH; [assumption|assumption|]. intros x Hx. apply Hd. right; assumption.
 Qed.
+
+Lemma upd_upd {A} (l : list A) i x y : upd (upd l i x) i y = upd l i y.
+Proof. revert i; induction l as [|h t IH]; intros [|j]; simpl; auto. f_equal; apply IH. Qed.
+
+Lemma upd_same {A} (l : list A) i x : nth_error l i = Some x -> upd l i x = l.
+Proof. revert i; induction l as [|h t IH]; intros [|j] H; simpl in *; try discriminate; auto; [inversion H; reflexivity|f_equal; apply IH; assumption]. Qed.
